@@ -7,6 +7,7 @@ import ast
 from ..astutil import AnalysisError, call_attr, dotted, src, walk_no_nested_defs
 from ..flow import case_index, step_exprs
 from ..paths import Path, resolve_name
+from ..rules import optional as optional_rules
 from .common import IT_ENGINE, IT_ROWS, Ctx, describe, new_run
 
 LEVEL = "proof"
@@ -115,6 +116,7 @@ def check(model, tier):
     run.rule("R18.2", "eager arms (sort, deduplication, materialization) force their input exactly once and return a built container", 3)
     run.rule("R18.3", "each lazy __iter__ iterates its source in exactly one position; no constructor stores an iterator or consumes its source", 8)
     forcing = forcing_methods(ctx)
+    optional_rules.r_optional_truthiness(ctx, "R18.4", {"payload"})
     if not {"to_mapping", "to_sequence", "materialized"} <= forcing:
         raise AnalysisError(f"forcing-method summary lost a member: {sorted(forcing)}")
     run.extra["forcing_methods"] = sorted(forcing)
@@ -274,7 +276,8 @@ def check(model, tier):
             for s in p.steps:
                 for e in step_exprs(s):
                     if e is not None:
-                        top_forced.extend(_forcing_exprs(e, {f"{rel}.payload", "result"}, forcing))
+                        walrus = {n.target.id for n in ast.walk(e) if isinstance(n, ast.NamedExpr) and isinstance(n.target, ast.Name) and src(n.value) == f"{rel}.payload"}
+                        top_forced.extend(_forcing_exprs(e, {f"{rel}.payload"} | walrus, forcing))
     if top_forced:
         run.fail("R18.1", "execute:short-circuits", f"execute() iterates a payload before dispatch (`{src(top_forced[0])[:60]}`)", fi=ex, node=top_forced[0])
     else:
